@@ -24,6 +24,14 @@ def _day_after(date: Any) -> Any:
 
 
 class TJPTransformer(Transformer[Any, Any]):
+    def STRING(self, token: Any) -> Any:
+        """'x' and "x" are the same string: hand the double-quoted form to the handlers
+        (they strip double quotes only, a single-quoted time zone or time format kept
+        its quotes)."""
+        if len(token) >= 2 and token[0] == "'" and token[-1] == "'":
+            return token.update(value='"' + token[1:-1] + '"')
+        return token
+
     def NUMBER(self, token: Any) -> Any:
         """Numbers no float can hold ('9' * 400) are rejected here; further down they
         would turn into infinity and surface as internal errors."""
